@@ -376,6 +376,21 @@ def run_trace_family(ctx, fam, driver):
                     except OSError:
                         pass
                     raise Infra('rejection of %s seed %d did not reproduce in 3 re-runs (line %s, %s); the rejected trace is saved under replays/' % (fam['profile'], seed, res['line'], res['failed']))
+            elif is_stuck_rejection(tf, res):
+                # concurrent families are not reproducible by seed, but a verdict "stuck" comes from a watchdog, i.e. from
+                # time: a frozen or starved machine must not produce it. A real deadlock shows again when the driver is
+                # run again; if two further runs end without any stuck call, the first one is an infrastructure problem
+                again = False
+                for attempt in range(2):
+                    tf2 = tf + '.again'
+                    run_driver(ctx, driver, fam['profile'], tf2, seed + 7 * (attempt + 1), args=args, timeout=fam.get('driver_timeout', 1500), env=env)
+                    res2 = validate(ctx, spec, tf2, enforce, consts=fam.get('consts', ''), timeout=fam.get('tlc_timeout', 1500), chunk=fam.get('chunk', 0))
+                    if not res2['accepted'] and is_stuck_rejection(tf2, res2):
+                        again = True
+                        break
+                if not again:
+                    save_replay(ctx, tf, res, fam['profile'], seed, extra=dict(spec=spec, enforce=enforce, consts=fam.get('consts', ''), note='a stuck call that did not show again in 2 further runs'))
+                    raise Infra('a call of %s seed %d was reported stuck by the watchdog, but no call was stuck in 2 further runs (line %s); the trace is saved under replays/' % (fam['profile'], seed, res['line']))
             path = save_replay(ctx, tf, res, fam['profile'], seed, extra=dict(spec=spec, enforce=enforce, consts=fam.get('consts', '')))
             try:
                 with open(d['stderr'], errors='replace') as f:
@@ -389,6 +404,14 @@ def run_trace_family(ctx, fam, driver):
             ctx.cov['budget_note'] = 'time budget reached after %d of %d seeds of %s' % (i + 1, seeds, fam['profile'])
             break
     return viol
+
+def is_stuck_rejection(tracefile, res):
+    """the rejected event reports a call that the watchdog gave up on"""
+    try:
+        ln = read_lines(tracefile)[res['line'] - 1]
+    except (IndexError, TypeError):
+        return False
+    return '"stuck"' in ln or 'nostuck' in ln or res['failed'] == ['nostuck']
 
 def write_evidence(ctx, prop, nviol):
     cov = ctx.cov
